@@ -374,7 +374,11 @@ func (g *coreGen) containerStmt(d int) Node {
 		if it == "s0" && g.inRule && g.r.Intn(2) == 0 {
 			// a signal raised inside a for-in over a string leaves it like any other loop
 			sig := cn("block", "b", []any{map[string]any(cn(g.pick("next", "next", "exit", "break", "continue")))})
-			body["b"] = append(body["b"].([]any), map[string]any(cn("if", "c", map[string]any(g.boolExpr(1)), "th", map[string]any(sig), "el", map[string]any(cn("none")))))
+			var cond Node = g.boolExpr(1)
+			if g.r.Intn(2) == 0 {
+				cond = cn("bin", "op", "==", "l", map[string]any(cn("var", "n", v1)), "r", map[string]any(cn("str", "v", "b"))) // s0 is "ab" unless re-assigned
+			}
+			body["b"] = append(body["b"].([]any), map[string]any(cn("if", "c", map[string]any(cond), "th", map[string]any(sig), "el", map[string]any(cn("none")))))
 		}
 		return cn("forin", "v1", v1, "v2", v2, "n", it, "b", map[string]any(body))
 	case 10:
@@ -647,6 +651,13 @@ func (g *coreGen) stmt(d int) Node {
 	if !g.inFn && g.r.Intn(4) == 0 {
 		return g.containerStmt(d)
 	}
+	if !g.inFn && g.r.Intn(20) == 0 {
+		v := g.pick("g0", "g1", "g2")
+		arg := cn("asg", "n", v, "op", g.pick("=", "+=", "-="), "e", map[string]any(g.num(1+g.r.Intn(6))))
+		return cn("block", "b", []any{
+			map[string]any(cn("print", "args", []any{map[string]any(cn("str", "v", "bmp")), map[string]any(cn("call", "f", "bmp", "args", []any{map[string]any(arg)}))})),
+			map[string]any(cn("print", "args", []any{map[string]any(cn("str", "v", "bmp2")), map[string]any(cn("var", "n", v))}))})
+	}
 	if !g.inFn && g.r.Intn(14) == 0 {
 		if g.r.Intn(2) == 0 {
 			return cn("print", "args", []any{map[string]any(cn("str", "v", "ack")), map[string]any(cn("call", "f", "fack", "args", []any{map[string]any(g.num(1 + g.r.Intn(3))), map[string]any(g.num(g.r.Intn(3)))}))})
@@ -861,6 +872,10 @@ func (g *coreGen) program() Node {
 	fns = append(fns, map[string]any(cn("fn", "name", "od", "params", []any{"a", "b"}, "body", map[string]any(cn("block", "b", []any{
 		map[string]any(cn("if", "c", map[string]any(cn("bin", "op", "==", "l", map[string]any(cn("var", "n", "a")), "r", map[string]any(cn("null")))),
 			"th", map[string]any(cn("block", "b", []any{map[string]any(cn("expr", "e", map[string]any(cn("asg", "n", "a", "op", "=", "e", map[string]any(cn("var", "n", "b"))))))})), "el", map[string]any(cn("none")))),
+		map[string]any(cn("return", "e", map[string]any(cn("var", "n", "a"))))})))))
+	// bmp assigns its parameter: an argument written as an assignment (bmp(g1 = 5)) hands over the assigned value
+	fns = append(fns, map[string]any(cn("fn", "name", "bmp", "params", []any{"a"}, "body", map[string]any(cn("block", "b", []any{
+		map[string]any(cn("expr", "e", map[string]any(cn("asg", "n", "a", "op", "=", "e", map[string]any(cn("bin", "op", "+", "l", map[string]any(cn("var", "n", "a")), "r", map[string]any(cn("num", "v", 100)))))))),
 		map[string]any(cn("return", "e", map[string]any(cn("var", "n", "a"))))})))))
 	// hr returns the global h0 as a bare variable, hb assigns it: in hr() + hb(..) the left value is what hr returned
 	fns = append(fns, map[string]any(cn("fn", "name", "hr", "params", []any{}, "body",
